@@ -1,7 +1,7 @@
 (* C06 -- Time-unit conversion preserves physical quantities.
    Statements only; every proof is `exact <lemma>` from Proofs/P_Time*.v, which are about the
    definitions REGENERATED from starsim/time.py (Gen/Gen_Time.v). *)
-From SS Require Import Model.Prelude Model.L3_Units Gen.Gen_Time Gen.Gen_Demog Model.L3_TimePar Proofs.P_Time Proofs.P_TimeR.
+From SS Require Import Model.Prelude Model.L3_Units Gen.Gen_Time Gen.Gen_Crude Model.L3_TimePar Proofs.P_Time Proofs.P_TimeR.
 From Coq Require Import QArith Reals.
 
 (* the unit table is the physical one *)
